@@ -294,3 +294,146 @@ def entryOptionsError (o : EntryOptions) : Option ErrKind :=
   else none
 
 end Pta
+
+/-! ### the two entry points of pytestarch.py: paths, and module objects (property C04)
+
+  `get_evaluable_architecture(root_path, module_path, *options)` checks the options, turns the two strings into
+  `pathlib.Path`s, computes `module_path.relative_to(root_path)` and calls `generate_graph`;
+  `get_evaluable_architecture_for_module_objects(root_module, module, *options)` computes
+  `os.path.dirname(root_module.__file__)`, `os.path.dirname(module.__file__)` and delegates with the six options unchanged.
+  Modelled: `posixpath.dirname`, the part of `PurePosixPath` the entry point uses (parsing, `str`, `name`, `relative_to`),
+  the option plumbing. Parameters: the file system (`fs`: normalised root path string ↦ entries below that directory) and,
+  as everywhere, `mt`. A module object is its `__file__`. -/
+namespace Pta
+
+/-- `s.split("/")` — never empty -/
+def splitSlash : Str → List Str
+  | [] => [[]]
+  | c :: cs =>
+    match splitSlash cs with
+    | [] => [[]]
+    | h :: t => if c = '/' then [] :: h :: t else (c :: h) :: t
+
+/-- `posixpath.dirname`:
+    ```
+    i = p.rfind('/') + 1
+    head = p[:i]
+    if head and head != '/' * len(head): head = head.rstrip('/')
+    return head
+    ``` -/
+def dirname (p : Str) : Str :=
+  let head := (p.reverse.dropWhile (· != '/')).reverse          -- `p[:i]`: up to and including the last '/'; "" without one
+  if !head.isEmpty && !head.all (· == '/') then (head.reverse.dropWhile (· == '/')).reverse else head
+
+/-- a parsed `PurePosixPath`: the root (`""`, `"/"`, or `"//"` for exactly two leading slashes) and the components -/
+structure PPath where
+  root : Str
+  parts : List Str
+deriving DecidableEq, Repr
+
+/-- `PurePosixPath(s)`: `splitroot`, then the components that are neither empty nor `.` (`..` is kept) -/
+def parsePath (s : Str) : PPath :=
+  let stripped := s.dropWhile (· == '/')
+  let lead := s.length - stripped.length
+  let root : Str := if lead == 0 then [] else if lead == 2 then ['/', '/'] else ['/']
+  ⟨root, (splitSlash stripped).filter fun x => !x.isEmpty && x != ['.']⟩
+
+/-- `str(path)` -/
+def PPath.str (p : PPath) : Str :=
+  let s := p.root ++ joinWith ['/'] p.parts
+  if s.isEmpty then ['.'] else s
+
+/-- `path.name` -/
+def PPath.name (p : PPath) : Str :=
+  match p.parts.getLast? with
+  | some n => n
+  | none => []
+
+/-- `m.relative_to(r)`: same root and the components of `r` are a prefix of those of `m`; otherwise `ValueError` -/
+def PPath.relativeTo (m r : PPath) : Except ErrKind (List Str) :=
+  if m.root == r.root && r.parts.isPrefixOf m.parts then .ok (m.parts.drop r.parts.length)
+  else .error .lookupError
+
+/-- what `get_evaluable_architecture` derives from its two path arguments: `str(root_as_path)` (the `base` of `pathStr`),
+    `root_as_path.name` and the components of `module_as_path.relative_to(root_as_path)` (`mp`; empty iff the
+    `path_diff_between_root_and_module` is `"."`) -/
+def entryPaths (rootPath modulePath : Str) : Except ErrKind (Str × Str × List Str) :=
+  let r := parsePath rootPath
+  match (parsePath modulePath).relativeTo r with
+  | .ok mp => .ok (r.str, r.name, mp)
+  | .error k => .error k
+
+/-- the six options of both entry points, with the defaults of the signature (`None` = `none`) -/
+structure EntryArgs where
+  exclusions : List Str := ["*__pycache__*".toList]
+  excludeExternal : Bool := true
+  levelLimit : Option Nat := none
+  regexExclusions : Option (List Str) := none
+  externalExclusions : Option (List Str) := none
+  regexExternalExclusions : Option (List Str) := none
+deriving Repr
+
+/-- truthiness of an optional tuple -/
+def tupleGiven : Option (List Str) → Bool
+  | some l => !l.isEmpty
+  | none => false
+
+/-- the flags `entryOptionsError` looks at -/
+def EntryArgs.flags (a : EntryArgs) (inside : Bool) : EntryOptions :=
+  ⟨!a.exclusions.isEmpty, tupleGiven a.regexExclusions, tupleGiven a.externalExclusions,
+   tupleGiven a.regexExternalExclusions, a.excludeExternal, inside⟩
+
+/-- `if exclusions: regex_exclusions = tuple(convert_partial_match_to_regex(p) …)`; the value then handed to
+    `generate_graph` as `exclusions`. `none`: it is still `None` (empty `exclusions`, no `regex_exclusions`). -/
+def EntryArgs.filePatterns (a : EntryArgs) : Option Patterns :=
+  if !a.exclusions.isEmpty then some (.globs a.exclusions)
+  else a.regexExclusions.map .regexes
+
+/-- the same for `external_exclusions`; `generate_graph` replaces `None` by `()` -/
+def EntryArgs.externalPatterns (a : EntryArgs) : Patterns :=
+  if tupleGiven a.externalExclusions then .globs (a.externalExclusions.getD [])
+  else .regexes (a.regexExternalExclusions.getD [])
+
+/-- the options as `generate_graph` receives them -/
+def EntryArgs.scanOptions (a : EntryArgs) : Option ScanOptions :=
+  a.filePatterns.map fun ex =>
+    { exclusions := ex, excludeExternal := a.excludeExternal, levelLimit := a.levelLimit,
+      externalExclusions := a.externalPatterns }
+
+/-- errors of the entry points: the kinds the harness distinguishes, and the `TypeError` of `FileFilter(Config(None))`
+    (`for pattern in None`) that `exclusions=()` without `regex_exclusions` runs into at the start of `generate_graph` -/
+inductive EntryErr
+  | kind (k : ErrKind)
+  | typeError
+deriving DecidableEq, Repr
+
+/-- `get_evaluable_architecture(root_path, module_path, *options)` -/
+def getEvaluableArchitecture (mt : Str → Str → Bool) (fs : Str → List Entry) (rootPath modulePath : Str)
+    (a : EntryArgs) : Except EntryErr (PGraph Str) :=
+  -- the three option checks (`modulePathInsideRoot := true`: the paths have not been looked at yet)
+  match entryOptionsError (a.flags true) with
+  | some k => .error (.kind k)
+  | none =>
+    match entryPaths rootPath modulePath with
+    | .error k => .error (.kind k)
+    | .ok (base, rootName, mp) =>
+      match a.scanOptions with
+      | none => .error .typeError
+      | some o =>
+        match generateGraph mt base rootName mp (fs base) o with
+        | .error k => .error (.kind k)
+        | .ok g => .ok g
+
+/-- a module object, as far as the entry point looks at it: `module.__file__` -/
+structure ModuleObj where
+  file : Str
+deriving DecidableEq, Repr
+
+/-- `get_evaluable_architecture_for_module_objects(root_module, module, *options)` -/
+def scanForModuleObjects (mt : Str → Str → Bool) (fs : Str → List Entry) (rootModule module : ModuleObj)
+    (a : EntryArgs) : Except EntryErr (PGraph Str) :=
+  let rootPath := dirname rootModule.file
+  let modulePath := dirname module.file
+  getEvaluableArchitecture mt fs rootPath modulePath a
+
+end Pta
